@@ -341,13 +341,26 @@ fn gen_delegation_method<'s>(
                 self.as_ref().borrow().#fn_ident(#(#arguments),*)
             },
         },
-        _ => DelegatingMethod {
-            trait_fn,
-            sig: fn_sig.clone(),
-            call: quote! {
-                self.as_ref().#fn_ident(#(#arguments),*)
-            },
-        },
+        _ => {
+            let takes_self_by_value = matches!(
+                fn_sig.inputs.first(),
+                Some(syn::FnArg::Receiver(receiver)) if receiver.reference.is_none()
+            );
+            DelegatingMethod {
+                trait_fn,
+                sig: fn_sig.clone(),
+                call: if takes_self_by_value {
+                    // a `self` method cannot be called through the borrow from `as_ref()`
+                    quote! {
+                        self.into_inner().#fn_ident(#(#arguments),*)
+                    }
+                } else {
+                    quote! {
+                        self.as_ref().#fn_ident(#(#arguments),*)
+                    }
+                },
+            }
+        }
     }
 }
 
